@@ -504,6 +504,10 @@ def _do(reg, c):
     if op == "set_top_m":       # the method form with an instance (used by the EBLIF reader)
         reg.get("N", c["n"]).set_top_instance(reg.get("I", c["i"]))
         return []
+    if op == "set_top_dm":      # the method form with a definition and a name for the new top instance
+        n = reg.get("N", c["n"])
+        n.set_top_instance(reg.get("D", c["d"]), instance_name=expand(c["name"]))
+        return [("I", n.top_instance)]
     if op == "set_top_def":
         n = reg.get("N", c["n"])
         n.top_instance = reg.get("D", c["d"])
@@ -1439,6 +1443,6 @@ def build(calls, listeners=""):
         execute(reg, c)
         # creating calls may create more than they return (pins of a new port, a whole clone ...):
         # adopt them in the canonical walk order right away so ids follow creation order
-        if c["op"] in ("create", "create_n", "create_child", "set_top_def", "new", "clone", "uniquify", "seq", "load_example"):
+        if c["op"] in ("create", "create_n", "create_child", "set_top_def", "set_top_dm", "new", "clone", "uniquify", "seq", "load_example"):
             adopt(reg)
     return reg
